@@ -1,4 +1,7 @@
 import StorageModel.Filter.DbProofs
+import StorageModel.Filter.Cursors
+import StorageModel.Filter.CursorsAlloc
+import StorageModel.Filter.CursorsCode
 /-
   C01 — Filter evaluation returns exactly the entities satisfying the predicate.
 
@@ -726,8 +729,170 @@ example : (dbSpecSigma exDb.defs).sym 1 "members.tags.site.name" = some (.any, t
 example : query exDb witFo 0 exDbFilter = .ok [[97, 49]] := by decide
 example : specQuery exDb witFo 0 exDbFilter = [[97, 49]] := by decide
 
+/-! ### per-scan cursor state: sub-queries over the entity type being scanned (`Filter/Cursors.lean`)
+
+  The set symbols of the code are stateful objects (`entitySetSymbolRuntime{cursor, value}`,
+  `compositeEntitySetSymbol{cursor}`) kept in the `symbolCache` of a row cursor; a sub-query scanner gets a row
+  cursor of its own (`newCursorScanner` → `newRowCursor`).  `Sk.run` evaluates a filter over a heap of such objects,
+  keyed by (row cursor, symbol name). -/
+
+/-- **Cursor state is per scan**: for every allocation of row cursors that gives a sub-query scan a row cursor no
+    enclosing scan uses, every filter skeleton, row cursor, row and heap, the evaluation over the runtime objects
+    computes the list semantics (`Sk.eval`, which is `evalBool`: `skOf_eval`) and leaves the objects of the
+    enclosing scans untouched — no proviso that the sub-query ranges over another entity type or avoids the set
+    symbol it iterates. -/
+theorem cursor_state_per_scan (w : World C F) (alloc : Nat → C → String → Nat) (hfresh : ∀ rc c n, rc < alloc rc c n)
+    (sk : Sk C F) (rc : Nat) (c : C) (h : Heap C F) :
+    (sk.run w alloc rc c h).1 = sk.eval w c ∧ ∀ k' : ObjKey, k'.1 < rc → (sk.run w alloc rc c h).2 k' = h k' :=
+  run_fresh_eq_eval w alloc hfresh sk rc c h
+
+/-- the typed filter's skeleton has the typed filter's `EvalBool` as its list semantics -/
+theorem skeleton_is_evalBool (w : World C F) (fo : FloatOps F) (t : TNode F) (c : C) :
+    (skOf w fo t).eval w c = evalRow w fo c t := skOf_eval w fo t c
+
+/-- **The same with the allocation inside the model** (`Filter/CursorsAlloc.lean`): the state counts the row cursors
+    handed out; `OpenSetCursorForQuery` → `newCursorScanner` → `newRowCursor` is the policy `newRowCursorPolicy`.  For
+    every policy that gives the scanner a row cursor nobody holds yet, every skeleton, every allocated row cursor, row
+    and state: list semantics, the counter never decreases, the objects of all other existing row cursors untouched. -/
+theorem cursor_state_allocating (w : World C F) (pol : RowCursorPolicy C) (hp : FreshPolicy pol) (sk : Sk C F)
+    (rc : Nat) (c : C) (h : Heap C F) (x : Nat) (hx : rc < x) :
+    (sk.exec w pol rc c (h, x)).1 = sk.eval w c ∧ x ≤ (sk.exec w pol rc c (h, x)).2.2 ∧
+      ∀ k' : ObjKey, k'.1 < x → k'.1 ≠ rc → (sk.exec w pol rc c (h, x)).2.1 k' = h k' :=
+  exec_eq_eval w pol hp sk rc c h x hx
+
+/-- `Store.QueryIds` with every row evaluated over the heap of runtime set-symbol objects by the scan's row cursor
+    (`ScanCursor`: `scanner.rowCursor = newRowCursor(store, tx)`, row cursor 0), sub-query scanners getting their row
+    cursor from `pol` -/
+def queryS (db : Db F) (fo : FloatOps F) (pol : RowCursorPolicy Ctx) (st : Nat) (f : U F) : Outcome (List Bytes) :=
+  match typeCheck (dbSigma db.defs) fo st f with
+  | .ok p => .ok ((scanIds db st).filter fun id =>
+      !skipped db st id && (evalRowA (modelWorld db) fo pol (st, some id) p Heap.init).1)
+  | .err => .err
+  | .panic => .panic
+
+/-- the policy the source denotes (`Filter/CursorsCode.lean`: `newRowCursorPolicy` iff the go/ast extractor
+    `extract/c01cursors.go` recognises `newRowCursor`, `getSymbol`, `OpenSetCursorForQuery`, `newCursorScanner` and the
+    runtime-copy branch of `BaseStore.GetSymbol` in the shapes the model reads) is fresh -/
+theorem code_policy_fresh : FreshPolicy (codePolicy (C := C)) := codePolicy_fresh
+
+/-- with the code's allocation (`newRowCursor` per sub-query scan) the query over the runtime objects is `query` -/
+theorem queryS_eq_query (db : Db F) (fo : FloatOps F) (st : Nat) (f : U F) :
+    queryS db fo codePolicy st f = query db fo st f := by
+  unfold queryS query
+  cases typeCheck (dbSigma db.defs) fo st f with
+  | ok p =>
+    simp only
+    congr 1
+    apply List.filter_congr
+    intro id _
+    rw [evalRowA_codePolicy]
+  | err => rfl
+  | panic => rfl
+
+/-- **Sub-queries over the scanned entity type are exact.**  On every database and schema of `query_exact` — in
+    particular with self-referential link sets (`AddFkSetSymbol(name, sameStore)`) — and every well-typed filter,
+    however often and however deep it re-uses the set symbol a sub-query iterates, the query evaluated over the
+    stateful runtime objects, with the row cursors allocated as the code allocates them, returns exactly the entities
+    the specification's nested semantics selects. -/
+theorem self_subquery_exact (db : Db F) (fo : FloatOps F) (st : Nat) (f : U F)
+    (hwf : WellFormedDb db) (hch : ChildRowsNested db) (hpl : PlainDefs db.defs)
+    (hwt : wellTyped (dbSpecSigma db.defs) fo st f = true) :
+    queryS db fo codePolicy st f = .ok (specQuery db fo st f) := by
+  rw [queryS_eq_query db fo st f]
+  exact query_exact db fo st f hwf hch hpl hwt
+
+/-- staff with `dr` (direct reports) → staff:  b → {m1, m2, m3}, m1 → {}, m2 → {w1}, m3 → {w1, w2} -/
+def selfDb : Db Float where
+  defs := [{ syms := [("id", .id), ("name", .field .str none), ("dr", .set .str (some 0))], maps := [] }]
+  rows := [[{ id := [98], fields := [], sets := [("dr", [.str [109, 49], .str [109, 50], .str [109, 51]])], maps := [] },
+            { id := [109, 49], fields := [], sets := [], maps := [] },
+            { id := [109, 50], fields := [], sets := [("dr", [.str [119, 49]])], maps := [] },
+            { id := [109, 51], fields := [], sets := [("dr", [.str [119, 49], .str [119, 50]])], maps := [] },
+            { id := [119, 49], fields := [], sets := [], maps := [] },
+            { id := [119, 50], fields := [], sets := [], maps := [] }]]
+
+/-- `count(from dr where not isEmpty(dr)) = 2`: who has exactly two reports that have reports -/
+def selfFilter : U Float := .cmp .eq (.setFnSub .count "dr" (.unot (.setFn .isEmpty "dr")) [] none none) (.int 2)
+/-- nested two deep, the set symbol used at three levels:
+    `count(from dr where count(from dr where isEmpty(dr)) = 1 and anyOf(dr) = "w1") = 1` -/
+def selfFilter2 : U Float :=
+  .cmp .eq (.setFnSub .count "dr"
+    (.logic false (.cmp .eq (.setFnSub .count "dr" (.setFn .isEmpty "dr") [] none none) (.int 1))
+                  (.cmp .eq (.setFn .anyOf "dr") (.str [119, 49]))) [] none none) (.int 1)
+
+/-- every sub-query scan with a row cursor of its own (`newCursorScanner` → `newRowCursor`) -/
+def perScan : RowCursorPolicy Ctx := codePolicy
+/-- the symbol cache of the scanning row cursor handed to the sub-query scan (same entity type) -/
+def sharedCache : RowCursorPolicy Ctx := sharedCachePolicy
+
+example : FreshPolicy perScan := codePolicy_fresh
+example : (codePolicy : RowCursorPolicy Ctx) = newRowCursorPolicy := by
+  unfold codePolicy; exact if_pos (by decide)
+example : ∀ rc c n, rc < (freshAlloc : Nat → Ctx → String → Nat) rc c n := fun rc _ _ => Nat.lt_succ_self rc
+example : wellTyped (dbSpecSigma selfDb.defs) witFo 0 selfFilter = true := by decide
+example : wellTyped (dbSpecSigma selfDb.defs) witFo 0 selfFilter2 = true := by decide
+example : specQuery selfDb witFo 0 selfFilter = [[98]] := by decide
+example : query selfDb witFo 0 selfFilter = .ok [[98]] := by decide
+example : queryS selfDb witFo perScan 0 selfFilter = .ok [[98]] := by decide
+example : specQuery selfDb witFo 0 selfFilter2 = [[98]] := by decide
+example : queryS selfDb witFo perScan 0 selfFilter2 = .ok [[98]] := by decide
+
+/-- non-vacuity of the hypotheses of `cursor_state_per_scan` / `cursor_state_allocating`: with the objects shared, evaluating
+    `isEmpty(dr)` on the sub-query row m1 re-positions the walk over b's reports onto m1's (empty) set — the walk ends
+    after m1 and b is counted as having no reports with reports -/
+theorem shared_cache_differs : queryS selfDb witFo sharedCache 0 selfFilter = .ok [] := by decide
+
+/-- a checkable form of `PlainDefs` -/
+theorem plainDefs_of_check (defs : List StoreDef)
+    (h : (defs.all fun d => d.syms.all fun e => match e.2 with | .custom .. => false | _ => true) = true) :
+    PlainDefs defs := by
+  intro st d hd n o ty l k hl
+  have hdm : d ∈ defs := List.mem_of_getElem? hd
+  have hmem : (n, SymDef.custom o ty l k) ∈ d.syms := by
+    obtain ⟨l1, l2, h1, _⟩ := List.lookup_eq_some_iff.mp hl
+    rw [h1]; simp
+  have h1 := List.all_eq_true.mp h d hdm
+  have h2 := List.all_eq_true.mp h1 _ hmem
+  simp at h2
+
+theorem selfDb_plain : PlainDefs selfDb.defs := plainDefs_of_check _ (by decide)
+
+theorem selfDb_nested : ChildRowsNested selfDb := by
+  apply childRowsNested_of_roots
+  intro st
+  match st with
+  | 0 => rfl
+  | n + 1 => rfl
+
+theorem selfDb_wellFormed : WellFormedDb selfDb := by
+  apply wellFormed_of_sets
+  intro rows hrows e he p hp
+  simp only [selfDb, List.mem_cons, List.mem_nil_iff, or_false] at hrows
+  subst hrows
+  simp only [List.mem_cons, List.mem_nil_iff, or_false] at he
+  rcases he with rfl | rfl | rfl | rfl | rfl | rfl <;> simp only [List.mem_cons, List.mem_nil_iff, or_false] at hp <;>
+    first
+    | exact hp.elim
+    | (subst hp
+       first
+       | exact ⟨[[109, 49], [109, 50], [109, 51]], rfl, by decide⟩
+       | exact ⟨[[119, 49]], rfl, by decide⟩
+       | exact ⟨[[119, 49], [119, 50]], rfl, by decide⟩)
+
+/-- non-vacuity of `self_subquery_exact`: its hypotheses hold on the self-referential staff database, for the filter
+    that uses the iterated set symbol at three nesting levels -/
+example : queryS selfDb witFo perScan 0 selfFilter2 = .ok (specQuery selfDb witFo 0 selfFilter2) :=
+  self_subquery_exact selfDb witFo 0 selfFilter2
+    selfDb_wellFormed selfDb_nested selfDb_plain (by decide)
+
 end StorageModel.Properties.C01
 
+#print axioms StorageModel.Properties.C01.cursor_state_per_scan
+#print axioms StorageModel.Properties.C01.cursor_state_allocating
+#print axioms StorageModel.Properties.C01.code_policy_fresh
+#print axioms StorageModel.Properties.C01.skeleton_is_evalBool
+#print axioms StorageModel.Properties.C01.self_subquery_exact
+#print axioms StorageModel.Properties.C01.shared_cache_differs
 #print axioms StorageModel.Properties.C01.transform_total
 #print axioms StorageModel.Properties.C01.eval_refines_sat
 #print axioms StorageModel.Properties.C01.seek_eq_scan
